@@ -704,6 +704,8 @@ func (msc *MinerSmartContract) shareSignsOrShares(t *transaction.Transaction,
 		return "", common.NewErrorf("share_signs_or_shares",
 			"decoding input %v", err)
 	}
+	// the shares are the sender's: validate them against the sender's public key
+	sos.ID = t.ClientID
 
 	if len(sos.ShareOrSigns) < dmn.K-1 {
 		return "", common.NewErrorf("share_signs_or_shares",
